@@ -1,6 +1,7 @@
 package p2p
 
 import (
+	"bytes"
 	"crypto/cipher"
 	"encoding/binary"
 	"io"
@@ -88,6 +89,11 @@ func NewHandshake(conn net.Conn, meta *lib.PeerMeta, privateKey crypto.PrivateKe
 	}, handshakeTimeout)
 	if err != nil {
 		return nil, ErrFailedSignatureSwap(err)
+	}
+	// a peer presenting our own identity is either ourselves or an intermediary reflecting our own
+	// challenge signature back to us (both sides sign the same challenge): never accept it
+	if bytes.Equal(peerSig.PublicKey, privateKey.PublicKey().Bytes()) {
+		return nil, ErrFailedChallenge()
 	}
 	peerPublicKey, err := crypto.NewPublicKeyFromBytes(peerSig.PublicKey)
 	if err != nil {
